@@ -1,11 +1,11 @@
 (* Properties/C11.v — QuantileCI bounds are valid order statistics with at least the stated confidence.
-   ONLY statements; each is closed by [exact] of a lemma from Proofs/QuantileCI.v.
+   ONLY statements; each is closed by [exact] of a lemma from Proofs/QuantileCI*.v.
    [quantile_ci] is the model of QuantileCI; for n <= 30 it is [qci_small P n x c], the greedy
    accumulation over P = the exact Binomial(n,q) PMF started at the lower mode x = [mode_x n q];
    for n > 30 it is [qci_normal band n c l1 r1] where l1 = norm.InvCDF((1-c)/2), r1 = 2 mu - l1 and
    band l r = Phi(r - 1/2) - Phi(l - 1/2) for the CDF Phi of the approximating normal. *)
-From MM Require Import Base.Num Base.GFSum Model.Choose Model.Binom Model.QuantileCI
-                       Proofs.Binom Proofs.QuantileCI Proofs.QuantileCISet.
+From MM Require Import Base.Num Base.GFSum Model.Choose Model.Binom Model.QuantileCI Check.C06 Check.C11
+                       Proofs.Binom Proofs.QuantileCI Proofs.QuantileCISet Proofs.QuantileCIScale Proofs.QuantileCILaws.
 From Coq Require Import Sorted Permutation.
 Local Open Scope Q_scope.
 
@@ -57,38 +57,91 @@ Theorem C11_small_nested : forall (n : nat) q c c' r r', c <= c' ->
 Proof. exact qci_binom_nested. Qed.
 Print Assumptions C11_small_nested.
 
-(* n > 30.  For ANY non-decreasing Phi: with l - 1/2 the greatest half-integer <= l1 and r - 1/2 the
-   least half-integer >= r1 (outward rounding), the result is that band clamped to [0, n+1], or one
-   bucket shorter on the right with Ambiguous set exactly when the shorter band still has mass >= c and
-   strictly less than the symmetric one (and the band does not cover everything); Confidence is the
-   Phi-mass of the unclamped band, 1 when it covers [0, n+1]. *)
+(* QuantileCI itself for n <= 30 and EVERY c (c >= 1 included): all clauses in one statement, with the
+   c >= 1 short cut folded in (the whole range has Confidence 1 = the mass of buckets 0..n, and one of
+   its end buckets carries mass) *)
+Theorem C11_small_all_c : forall (n : nat) q, 0 <= q <= 1 -> (Z.of_nat n <= 30)%Z ->
+  forall cdfband c l1 r1,
+  let N := Z.of_nat n in
+  let P := binom_pmf_i N q in
+  let x := mode_x N q in
+  exists res, quantile_ci cdfband N q c l1 r1 = Some res /\
+    (0 <= r_lo res)%Z /\ (r_lo res < r_hi res)%Z /\ (r_hi res <= N + 1)%Z /\
+    r_conf res == Qsum_range P (r_lo res) (r_hi res - 1)%Z /\
+    (r_lo res <= x < r_hi res)%Z /\
+    (r_amb res = true -> Qsum_range P (r_lo res + 1)%Z (r_hi res) == r_conf res) /\
+    ((2 <= r_hi res - r_lo res)%Z -> r_conf res - P (r_lo res) < c \/ r_conf res - P (r_hi res - 1)%Z < c) /\
+    (c <= 1 -> c <= r_conf res) /\
+    (1 <= c -> res = mkR 0 (N + 1) 1 false).
+Proof. exact quantile_ci_small_all. Qed.
+Print Assumptions C11_small_all_c.
+
+(* nested as c grows, for every pair c <= c' (c' >= 1 included) *)
+Theorem C11_nested_all_c : forall (n : nat) q, 0 <= q <= 1 -> (Z.of_nat n <= 30)%Z ->
+  forall cdfband c c' l1 r1 l1' r1' r r', c <= c' ->
+  quantile_ci cdfband (Z.of_nat n) q c l1 r1 = Some r ->
+  quantile_ci cdfband (Z.of_nat n) q c' l1' r1' = Some r' ->
+  (r_lo r' <= r_lo r)%Z /\ (r_hi r <= r_hi r')%Z.
+Proof. exact quantile_ci_small_nested_all. Qed.
+Print Assumptions C11_nested_all_c.
+
+(* n > 30, c < 1: QuantileCI is the band logic *)
+Theorem C11_normal_dispatch : forall cdfband n q c l1 r1, c < 1 -> (30 < n)%Z ->
+  quantile_ci cdfband n q c l1 r1 = Some (qci_normal cdfband n c l1 r1).
+Proof. exact quantile_ci_normal. Qed.
+Print Assumptions C11_normal_dispatch.
+
+(* n > 30 (the code after "fix: QuantileCI returns an empty or inverted interval for confidence <= 0
+   when n > 30").  For ANY Phi: with l0 - 1/2 the greatest half-integer <= l1 and r - 1/2 the least
+   half-integer >= r1 (outward rounding; the left end actually used is l = l0, except that an empty
+   rounded band keeps the bucket below r — l = l0 whenever l1 < r1, and always l <= l0, l < r), the
+   result is that band clamped to [0, n+1], or one bucket shorter on the right with Ambiguous set
+   exactly when the shorter band is not empty, still has mass >= c and strictly less than the
+   symmetric one (and the band does not cover everything); Confidence is the Phi-mass of the
+   unclamped band, 1 when it covers [0, n+1]. *)
 Theorem C11_normal_band : forall (Phi : Q -> Q) n c l1 r1,
-  let l := (Qround.Qfloor (l1 - (1 # 2)) + 1)%Z in
+  let l0 := (Qround.Qfloor (l1 - (1 # 2)) + 1)%Z in
   let r := (Qround.Qceiling (r1 - (1 # 2)) + 1)%Z in
-  let biased := Qle_bool c (band Phi l (r - 1)) && Qltb (band Phi l (r - 1)) (band Phi l r) in
+  let l := if (r <=? l0)%Z then (r - 1)%Z else l0 in
+  let biased := (l <? r - 1)%Z && Qle_bool c (band Phi l (r - 1)) && Qltb (band Phi l (r - 1)) (band Phi l r) in
   let r' := if biased then (r - 1)%Z else r in
   let full := (l <=? 0)%Z && (n + 1 <=? r')%Z in
   let res := qci_normal (band Phi) n c l1 r1 in
-  (inject_Z l - (1 # 2) <= l1 /\ l1 < inject_Z l + (1 # 2) /\ r1 <= inject_Z r - (1 # 2) /\ inject_Z r - (3 # 2) < r1) /\
+  (inject_Z l0 - (1 # 2) <= l1 /\ l1 < inject_Z l0 + (1 # 2) /\ r1 <= inject_Z r - (1 # 2) /\ inject_Z r - (3 # 2) < r1) /\
+  ((l <= l0)%Z /\ (l < r)%Z /\ (l1 < r1 -> l = l0) /\ (l1 <= r1 -> (l0 <= r)%Z)) /\
   r_lo res = Z.max l 0 /\ r_hi res = Z.min r' (n + 1) /\ r_amb res = (biased && negb full) /\
   r_conf res = (if full then 1 else band Phi l r').
-Proof. intros. split; [apply band_rounding | apply qci_normal_band]. Qed.
+Proof. exact qci_normal_band_full. Qed.
 Print Assumptions C11_normal_band.
 
-(* Confidence is never below c when l1, r1 bracket the central mass c of a non-decreasing Phi *)
-Theorem C11_normal_conf_ge_c : forall (Phi : Q -> Q), (forall a b, a <= b -> Phi a <= Phi b) ->
-  forall n c l1 r1, c <= 1 -> Phi l1 <= (1 - c) / 2 -> 1 - (1 - c) / 2 <= Phi r1 ->
+(* Confidence is never below c when l1, r1 bracket the central mass 1 - 2 alpha of a non-decreasing
+   Phi, alpha = (1-c)/2 capped at 1/2 as in the code *)
+Theorem C11_normal_conf_ge_c : forall (Phi : Q -> Q) n c l1 r1, (forall a b, a <= b -> Phi a <= Phi b) ->
+  c <= 1 -> Phi l1 <= qci_alpha c -> 1 - qci_alpha c <= Phi r1 ->
   c <= r_conf (qci_normal (band Phi) n c l1 r1).
 Proof. exact qci_normal_conf_ge_c. Qed.
 Print Assumptions C11_normal_conf_ge_c.
 
-(* 0 <= LoOrder < HiOrder <= n+1 for 0 < c and a band symmetric about a mean inside [0, n] *)
-Theorem C11_normal_orders : forall (Phi : Q -> Q), (forall a b, a <= b -> Phi a <= Phi b) ->
-  forall n c l1 r1 mu, 0 < c -> l1 < r1 -> l1 + r1 == 2 * mu -> 0 <= mu <= inject_Z n -> (0 <= n)%Z ->
+(* 0 <= LoOrder < HiOrder <= n+1 for EVERY c (c <= 0 included) and any Phi, for a central interval
+   l1 <= r1 symmetric about a mean inside [0, n] *)
+Theorem C11_normal_orders : forall (Phi : Q -> Q) n c l1 r1 mu,
+  l1 <= r1 -> l1 + r1 == 2 * mu -> 0 <= mu <= inject_Z n -> (0 <= n)%Z ->
   let res := qci_normal (band Phi) n c l1 r1 in
   (0 <= r_lo res)%Z /\ (r_lo res < r_hi res)%Z /\ (r_hi res <= n + 1)%Z.
 Proof. exact qci_normal_orders. Qed.
 Print Assumptions C11_normal_orders.
+
+(* the band logic of the tree BEFORE that fix ([qci_normal_pinned]: no empty-band guards) violates
+   the order claim at c = 0 (LoOrder = HiOrder; the code returned QuantileCI(31, 0.5, 0) =
+   {16, 16, Confidence 0}), on an input where the repaired model satisfies it *)
+Theorem C11_normal_orders_pinned_refuted :
+  exists (Phi : Q -> Q) n c l1 r1 mu,
+    (forall a b, a <= b -> Phi a <= Phi b) /\ c <= 0 /\ l1 <= r1 /\ l1 + r1 == 2 * mu /\
+    0 <= mu <= inject_Z n /\ (0 <= n)%Z /\ Phi l1 == (1 - c) / 2 /\
+    (let res := qci_normal_pinned (band Phi) n c l1 r1 in ~ (r_lo res < r_hi res)%Z) /\
+    (let res := qci_normal (band Phi) n c l1 r1 in (r_lo res < r_hi res)%Z).
+Proof. exact qci_normal_pinned_orders_refuted. Qed.
+Print Assumptions C11_normal_orders_pinned_refuted.
 
 (* SampleCI: the bounds are the order statistics LoOrder and HiOrder of a sorted permutation of the
    sample, -inf for order 0 and +inf for order n+1 *)
@@ -108,18 +161,68 @@ Theorem C11_sample_ci_panics : forall N lo hi w sf xs,
 Proof. exact sample_ci_panics. Qed.
 Print Assumptions C11_sample_ci_panics.
 
+(* a sample flagged Sorted is indexed as it is (no copy, no sort) *)
+Theorem C11_sample_ci_sorted_flag : forall N lo hi xs,
+  Z.of_nat (length xs) = N -> (0 <= lo <= N)%Z -> (1 <= hi <= N + 1)%Z ->
+  exists a b, sample_ci N lo hi false true xs = SciOk a b xs /\
+    (lo = 0%Z -> a = XInf true) /\
+    ((1 <= lo)%Z -> exists v, nth_error xs (Z.to_nat (lo - 1)) = Some v /\ a = XFin v) /\
+    (hi = (N + 1)%Z -> b = XInf false) /\
+    ((hi <= N)%Z -> exists v, nth_error xs (Z.to_nat (hi - 1)) = Some v /\ b = XFin v).
+Proof. exact sample_ci_sorted_flag. Qed.
+Print Assumptions C11_sample_ci_sorted_flag.
+
 (* The comparator does not demand the deterministic outcome: float comparisons whose two sides are
    within 2^-40 of each other may go either way (DESIGN 4.5), so it computes the SET of admissible
    outcomes (a c-independent transition graph walked for each c, with a scale factor sc that keeps
    the numbers integral).  That set always contains the result of the deterministic greedy
    accumulation the theorems above are about — for any window 1/ieps (0 = none), any PMF P. *)
 Theorem C11_admissible_set_contains_model : forall (P : Z -> Q) (ieps sc : Q), 0 < sc ->
-  forall n x c g r,
-  qci_graph P ieps n [x] = Some g -> qci_small P n x c = Some r ->
-  exists r', In r' (qci_small_set P ieps n g sc (sc * c)) /\
+  forall n xs x c c' g r, c' == sc * c -> In x xs ->
+  qci_graph P ieps n xs = Some g -> qci_small P n x c = Some r ->
+  exists r', In r' (qci_small_set P ieps n g sc c') /\
              r_lo r' = r_lo r /\ r_hi r' = r_hi r /\ r_amb r' = r_amb r /\ r_conf r' == r_conf r.
-Proof. exact set_contains_det. Qed.
+Proof. exact set_contains_det_gen. Qed.
 Print Assumptions C11_admissible_set_contains_model.
+
+(* The greedy accumulation is invariant under a common positive factor: on masses P' == D * P and
+   level D * c it returns the same orders and Ambiguous flag and D times the Confidence — in both
+   directions (each run succeeds iff the other does). *)
+Theorem C11_greedy_scale_invariant : forall (P P' : Z -> Q) (D : Q), 0 < D -> (forall k, P' k == D * P k) ->
+  forall n x c,
+  (forall r, qci_small P n x c = Some r ->
+     exists r', qci_small P' n x (D * c) = Some r' /\
+       r_lo r' = r_lo r /\ r_hi r' = r_hi r /\ r_amb r' = r_amb r /\ r_conf r' == D * r_conf r) /\
+  (forall r', qci_small P' n x (D * c) = Some r' ->
+     exists r, qci_small P n x c = Some r /\
+       r_lo r' = r_lo r /\ r_hi r' = r_hi r /\ r_amb r' = r_amb r /\ r_conf r' == D * r_conf r).
+Proof. exact greedy_scale_invariant. Qed.
+Print Assumptions C11_greedy_scale_invariant.
+
+(* The comparator's integer masses are the common-denominator multiples of the exact PMF:
+   scaled_pmf n (binom_weights n a (d-a)) k = d^n * Binomial(n, a/d)(k), for every k. *)
+Theorem C11_comparator_masses : forall (n : nat) (q : Q), 0 <= q <= 1 -> forall k,
+  scaled_pmf (Z.of_nat n) (binom_weights (Z.of_nat n) (Qnum q) (Zpos (Qden q) - Qnum q)) k ==
+  inject_Z (Zpos (Qden q) ^ Z.of_nat n) * binom_pmf_i (Z.of_nat n) q k.
+Proof. exact scaled_pmf_is_scaled. Qed.
+Print Assumptions C11_comparator_masses.
+
+(* Combined: the outcome set that Check/C11.v computes for one (n, q = a/2^e, c) — [small_outs] over the
+   transition graph started at [mode_candidates], on the integer masses, for either window — contains
+   the result of the deterministic model on the RATIONAL Binomial(n,q) PMF at level c: same orders,
+   same flag, Confidence as the integer numerator over the common denominator d^n. *)
+Theorem C11_comparator_set_contains_model : forall (n : nat) (q : Q), 0 <= q <= 1 ->
+  let N := Z.of_nat n in
+  let d := Zpos (Qden q) in
+  let Pw := scaled_pmf N (binom_weights N (Qnum q) (d - Qnum q)) in
+  forall e (exact : bool) c g r, (0 <= e)%Z -> d = Z.shiftl 1 e ->
+  qci_graph Pw (if exact then 0 else ieps_border) N (mode_candidates N q exact) = Some g ->
+  qci_small (binom_pmf_i N q) N (mode_x N q) c = Some r ->
+  exists r', In r' (small_outs Pw N g e exact c) /\
+             r_lo r' = r_lo r /\ r_hi r' = r_hi r /\ r_amb r' = r_amb r /\
+             r_conf r' == inject_Z (d ^ N) * r_conf r.
+Proof. exact comparator_outs_contain_model. Qed.
+Print Assumptions C11_comparator_set_contains_model.
 
 (* ---------- non-vacuity ---------- *)
 Example C11_small_example :
@@ -139,12 +242,39 @@ Example C11_normal_example :
   let Phi := fun t : Q => if Qle_bool t 40 then 0 else if Qle_bool 60 t then 1 else (t - 40) / 20 in
   let r := qci_normal (band Phi) 100 (2 # 5) (457 # 10) (543 # 10) in
   let r2 := qci_normal (band Phi) 100 (41 # 100) (457 # 10) (543 # 10) in
+  (* c = 0, l1 = r1 = 50: one bucket, not trimmed; l1 = r1 = 49.5 (on a band boundary): the bucket below *)
+  let r3 := qci_normal (band Phi) 100 0 50 50 in
+  let r4 := qci_normal (band Phi) 100 (-1 # 2) (99 # 2) (99 # 2) in
   (r_lo r, r_hi r, Qred (r_conf r), r_amb r) = (46%Z, 54%Z, 2 # 5, true) /\
-  (r_lo r2, r_hi r2, Qred (r_conf r2), r_amb r2) = (46%Z, 55%Z, 9 # 20, false).
-Proof. vm_compute. split; reflexivity. Qed.
+  (r_lo r2, r_hi r2, Qred (r_conf r2), r_amb r2) = (46%Z, 55%Z, 9 # 20, false) /\
+  (r_lo r3, r_hi r3, Qred (r_conf r3), r_amb r3) = (50%Z, 51%Z, 1 # 20, false) /\
+  (r_lo r4, r_hi r4, Qred (r_conf r4), r_amb r4) = (49%Z, 50%Z, 1 # 20, false) /\
+  qci_alpha (-1 # 2) = 1 # 2 /\ Qred (qci_alpha (9 # 10)) = 1 # 20.
+Proof. vm_compute. repeat split; reflexivity. Qed.
 
 Example C11_sample_example :
   sample_ci 4 0 3 false false [3; 1; 2; 1] = SciOk (XInf true) (XFin 2) [1; 1; 2; 3] /\
   sample_ci 4 2 5 false false [3; 1; 2; 1] = SciOk (XFin 1) (XInf false) [1; 1; 2; 3] /\
   sample_ci 4 2 5 true false [3; 1; 2; 1] = SciPanic.
 Proof. vm_compute. repeat split; reflexivity. Qed.
+
+Example C11_scale_example :
+  (* masses 1,4,6,4,1 (= 16 * Binomial(4,1/2)) at level 16 * 0.8 against the rational run at 0.8 *)
+  let P := binom_pmf_i 4 (1 # 2) in
+  let P' := fun k => 16 * P k in
+  option_map (fun r => (r_lo r, r_hi r, Qred (r_conf r), r_amb r)) (qci_small P 4 1 (8 # 10)) = Some (1%Z, 4%Z, 7 # 8, false) /\
+  option_map (fun r => (r_lo r, r_hi r, Qred (r_conf r), r_amb r)) (qci_small P' 4 1 (16 * (8 # 10))) = Some (1%Z, 4%Z, 14 # 1, false).
+Proof. vm_compute. split; reflexivity. Qed.
+
+Example C11_comparator_example :
+  (* n = 4, q = 1/2 (e = 1): the graph exists and the set for c = 4/5 is the single model outcome, 14/16 *)
+  let Pw := scaled_pmf 4 (binom_weights 4 1 1) in
+  match qci_graph Pw 0 4 (mode_candidates 4 (1 # 2) true) with
+  | Some g => map (fun r => (r_lo r, r_hi r, r_conf r, r_amb r)) (small_outs Pw 4 g 1 true (4 # 5)) = [(1%Z, 4%Z, 14 # 1, false)]
+  | None => False
+  end.
+Proof. vm_compute. reflexivity. Qed.
+
+Example C11_sample_sorted_example :
+  sample_ci 4 1 4 false true [1; 1; 2; 3] = SciOk (XFin 1) (XFin 3) [1; 1; 2; 3].
+Proof. vm_compute. reflexivity. Qed.
